@@ -35,6 +35,11 @@ func addrPrivate(v ssa.Value, depth int) bool {
 			if u.Op != token.MUL {
 				return false
 			}
+		case *ssa.FieldAddr:
+			// &local.f used only to load/store that field
+			if u.X != v || !addrPrivate(u, depth+1) {
+				return false
+			}
 		case *ssa.MakeClosure:
 			fn, ok := u.Fn.(*ssa.Function)
 			if !ok || !closureUsedInPlace(u) {
